@@ -1,7 +1,7 @@
 (* Comparer for C14 case files: a container written with one revision of a nested delimited type and read with the
    other; plus the layout observables of both revisions. *)
 From Coq Require Import ZArith List Bool.
-From PV Require Import Util.ListSet BLS.Model Layout.Types Serdes.Model Serdes.ValEq Check.Compare Check.C06.
+From PV Require Import Util.ListSet BLS.Model Layout.Types Serdes.Model Serdes.ValEq Serdes.Evolve Check.Compare Check.C06.
 Import ListNotations.
 Open Scope Z_scope.
 
@@ -10,60 +10,6 @@ Inductive lobs := LObs (mn mx ext : Z).
 
 Definition check_lobs (t : ty) (o : lobs) : bool :=
   match o with LObs mn mx ext => (mn =? omin (bls t)) && (mx =? omax (bls t)) && (ext =? extent t) end.
-
-(* "t2 is t1 with nested delimited structures replaced by revisions with a longer or shorter field list":
-   same shape everywhere else, same extent at the replaced places, one field list a prefix of the other *)
-Fixpoint is_prefix (a b : list (option str * ty)) (E : ty -> ty -> bool) : bool :=
-  match a, b with
-  | [], _ => true
-  | x :: a', y :: b' =>
-      (match fst x, fst y with None, None => true | Some _, Some _ => true | _, _ => false end)
-      && E (snd x) (snd y) && is_prefix a' b' E
-  | _ :: _, [] => false
-  end.
-
-Definition prim_eqb (p q : prim) : bool :=
-  match p, q with
-  | PBool, PBool | PByte, PByte | PUtf8, PUtf8 => true
-  | PUInt w c, PUInt w' c' | PFloat w c, PFloat w' c' =>
-      (w =? w') && match c, c' with Sat, Sat | Trunc, Trunc => true | _, _ => false end
-  | PSInt w, PSInt w' => w =? w'
-  | _, _ => false
-  end.
-
-Section Ev.
-Variable E : ty -> ty -> bool.
-Fixpoint fields_evolve (a b : list (option str * ty)) : bool :=
-  match a, b with
-  | [], [] => true
-  | x :: a', y :: b' =>
-      (match fst x, fst y with None, None => true | Some _, Some _ => true | _, _ => false end)
-      && E (snd x) (snd y) && fields_evolve a' b'
-  | _, _ => false
-  end.
-(* equal up to evolution on the common prefix, anything afterwards on either side *)
-Fixpoint fields_prefix_evolve (a b : list (option str * ty)) : bool :=
-  match a, b with
-  | [], _ => true
-  | _, [] => true
-  | x :: a', y :: b' =>
-      (match fst x, fst y with None, None => true | Some _, Some _ => true | _, _ => false end)
-      && E (snd x) (snd y) && fields_prefix_evolve a' b'
-  end.
-End Ev.
-
-Fixpoint evolves (t1 t2 : ty) {struct t1} : bool :=
-  match t1, t2 with
-  | TPrim p, TPrim q => prim_eqb p q
-  | TVoid w, TVoid w' => w =? w'
-  | TFix e n, TFix e' n' => (n =? n') && evolves e e'
-  | TVar e n, TVar e' n' => (n =? n') && evolves e e'
-  | TStruct _ fs, TStruct _ gs => fields_evolve evolves fs gs
-  | TUnion _ fs, TUnion _ gs => fields_evolve evolves fs gs
-  | TDelim (TStruct _ fs) x, TDelim (TStruct _ gs) x' => (x =? x') && fields_prefix_evolve evolves fs gs
-  | TDelim i x, TDelim i' x' => (x =? x') && evolves i i'
-  | _, _ => false
-  end.
 
 (* written with tw, read with tr *)
 Inductive case := Case (tw tr : ty) (v : val) (lw lr : lobs) (o : C06.sobs).
